@@ -352,6 +352,33 @@ static void fam_c01_pagequeue(G& g, Plan& p) {
   P.ops.push_back(mk(OP_verify_all));
 }
 
+// page edges: a page of tiny blocks is used up to its very last block while the slice right behind it holds a page whose first block
+// starts at offset 0 (block size > 512), a large page or the end of the segment -- a page extent that is a few bytes off only shows there
+static void fam_c01_pageedge(G& g, Plan& p) {
+  p.nslots = 30000; p.progs.resize(1); Program& P = p.progs[0];
+  auto bs = bin_sizes();
+  const int hs = g.chance(0.2) ? 0 : -1; if (hs >= 0) P.ops.push_back(mkh(OP_heap_new, 0));
+  int rounds = 1 + (int)g.below(3); int base = 0, spare = 29000;
+  for (int r = 0; r < rounds; r++) {
+    size_t b = g.chance(0.5) ? bs[g.below(4)] : bs[g.below(24)];                       // 8 .. 512
+    size_t req = (g.padded && b > 8) ? b - 8 : b; if (req > 1 && g.chance(0.3)) req -= g.below(2);
+    int W = (int)((64 * KiB) / b) + 16; if (base + W > 28000) break;
+    { Op o = mk(OP_malloc, base, req); o.hslot = hs; P.ops.push_back(o); }                // a block in the page in use (usually opens one)
+    int nb = g.pick({0, 1, 1, 2, 2, 3});
+    for (int k = 0; k < nb; k++) {   // what lies behind it
+      int c = (int)g.below(4); size_t sz = c == 0 ? bs[25 + g.below(12)] : c == 1 ? 8 * KiB + g.below(100 * KiB) : c == 2 ? 600 + g.below(15 * KiB) : 1 + g.below(512);
+      int m = c == 0 ? 1 + (int)g.below((64 * KiB) / sz + 2) : 1 + (int)g.below(3);
+      for (int i = 0; i < m && spare < 29990; i++) { Op o = mk(OP_malloc, spare++, sz); o.hslot = hs; P.ops.push_back(o); }
+    }
+    int nf = 1 + (int)g.below(2);
+    for (int f = 0; f < nf; f++) { Op o = mk(OP_fill_page, base, req, (uint64_t)W, (uint64_t)W); o.hslot = hs; P.ops.push_back(o); }   // the 2nd fill continues into the next page
+    if (g.chance(0.3)) P.ops.push_back(mk(OP_free_page, base, g.below(3), g.below(2), 0));
+    if (g.chance(0.3)) { Op o = mk(OP_fill_page, base, req, (uint64_t)W, (uint64_t)W); o.hslot = hs; P.ops.push_back(o); }
+    P.ops.push_back(mk(OP_verify_all));
+    base += W;
+  }
+}
+
 // mixes of small (1 slice), medium (8 slices) and large pages so that span split/coalesce sees every neighbour combination
 static void fam_c01_spanchurn(G& g, Plan& p) {
   p.nslots = 120;
@@ -677,15 +704,24 @@ static void fam_c09_adopt_race(G& g, Plan& p) {
   if (g.chance(0.3)) set_env(p, "VISIT_ABANDONED", 1);
   if (g.chance(0.15)) set_env(p, "DISALLOW_ARENA_ALLOC", 1);
   int nfreers = 1 + (int)g.below(3);
+  // claim race: with reclaim-on-free several freers (and the collecting main thread) try to take over the same abandoned segment
+  // at the same moment; the blocks spread over a few segments so that there are several such moments per run
+  const bool claim_race = g.chance(0.3);
+  if (claim_race) { set_env(p, "ABANDONED_RECLAIM_ON_FREE", 1); nfreers = 2 + (int)g.below(2); }
   int nt = 2 + nfreers;
   int ncls = 1 + (int)g.below(2); std::vector<size_t> cls; for (int i = 0; i < ncls; i++) cls.push_back(class_req(g, 40));
+  if (claim_race && g.chance(0.7)) cls.push_back(40 * KiB + g.below(80 * KiB));
   int n = 20 + (int)g.below(200);
-  int extra = 20;
+  int extra = 20 + (claim_race ? 12 * nfreers : 0);
   p.nslots = n + extra; p.progs.resize((size_t)nt);
   if (g.chance(0.7)) {
     p.cfg.strategy = ST_TARGETED; p.cfg.hot_p = g.pick({0.3, 0.7}); p.cfg.switch_p = g.pick({0.0, 0.002});
     p.cfg.hot_funcs = {"mi_segment_reclaim", "mi_free_block_delayed_mt", "_mi_page_try_use_delayed_free", "_mi_page_use_delayed_free", "_mi_page_reclaim", "mi_free_block_mt"};
     if (g.chance(0.4)) p.cfg.hot_funcs.push_back("_mi_page_thread_free_collect");
+  }
+  if (claim_race) {   // the hand-over points of a segment: the abandoned bit and the owner id
+    p.cfg.strategy = ST_TARGETED; p.cfg.hot_p = g.pick({0.3, 0.6, 0.9}); p.cfg.switch_p = g.pick({0.0, 0.002}); p.cfg.hold_steps = g.pick({0, 40, 400});
+    p.cfg.hot_funcs = {"_mi_bitmap_unclaim", "_mi_arena_segment_clear_abandoned", "_mi_arena_segment_mark_abandoned", "_mi_segment_attempt_reclaim", "mi_segment_reclaim"};
   }
   Program& P0 = p.progs[0];
   Program& PR = p.progs[1]; PR.explicit_done = g.chance(0.5);
@@ -695,15 +731,18 @@ static void fam_c09_adopt_race(G& g, Plan& p) {
   // adoption by the main thread while the freers run
   int act = 4 + (int)g.below(30);
   for (int i = 0; i < act; i++) {
-    int k = (int)g.below(10); int sl = n + (int)g.below((uint64_t)extra);
+    int k = (int)g.below(10); int sl = n + (int)g.below(20);
     if (k < 3) P0.ops.push_back(mk(OP_collect, -1, 1));
     else if (k < 7) P0.ops.push_back(mk(OP_malloc, sl, cls[g.below(cls.size())]));
     else if (k < 8) P0.ops.push_back(mk(OP_free, sl));
     else if (k < 9) P0.ops.push_back(mk(OP_check_owner, (int)g.below((uint64_t)n)));
     else P0.ops.push_back(mk(OP_malloc, sl, 3 * MiB + g.below(6 * MiB)));       // needs a fresh segment: tries to reclaim first
   }
-  for (int i = 0; i < n; i++) { int t = 2 + (int)g.below((uint64_t)nfreers); p.progs[(size_t)t].ops.push_back(mk(OP_free, i)); }
-  for (int t = 2; t < nt; t++) { auto& ops = p.progs[(size_t)t].ops; if (g.chance(0.5)) for (size_t i = ops.size(); i > 1; i--) std::swap(ops[i - 1], ops[g.below(i)]); p.progs[(size_t)t].explicit_done = g.chance(0.5); }
+  for (int i = 0; i < n; i++) {
+    int t = 2 + (int)g.below((uint64_t)nfreers); p.progs[(size_t)t].ops.push_back(mk(OP_free, i));
+    if (claim_race && g.chance(0.15)) p.progs[(size_t)t].ops.push_back(mk(OP_malloc, n + 20 + 12 * (t - 2) + (int)g.below(12), cls[g.below(cls.size())]));   // whoever took the segment over allocates from it
+  }
+  for (int t = 2; t < nt; t++) { auto& ops = p.progs[(size_t)t].ops; if (!claim_race && g.chance(0.5)) for (size_t i = ops.size(); i > 1; i--) std::swap(ops[i - 1], ops[g.below(i)]); p.progs[(size_t)t].explicit_done = g.chance(0.5); }
   for (int t = 2; t < nt; t++) P0.ops.push_back(mk(OP_join, t));
   P0.ops.push_back(mk(OP_collect, -1, 1));
   P0.ops.push_back(mk(OP_verify_all));
@@ -885,7 +924,12 @@ static void fam_c10_concurrent(G& g, Plan& p) {
   int n = (int)per_page * (1 + (int)g.below(2)) + (int)g.below(per_page);
   p.nslots = n + 40; p.progs.resize((size_t)nt);
   Program& P0 = p.progs[0];
-  P0.ops.push_back(mkh(OP_heap_new, 0)); P0.ops.push_back(mkh(OP_heap_new, 1));
+  // bound: the deleted heap is tied to an arena, so the backing heap cannot absorb its pages and mi_heap_delete abandons them instead
+  // (the thread-exit protocol, run against remote frees while the thread lives on)
+  const bool bound = g.chance(0.35);
+  if (bound) { P0.ops.push_back(mk(OP_reserve_arena, 0, (64 + 32 * g.below(2)) * MiB, g.below(2), g.below(2))); P0.ops.push_back(mkh(OP_heap_new_in_arena, 0, 0)); if (g.chance(0.5)) set_env(p, "ABANDONED_RECLAIM_ON_FREE", g.pick({0, 1})); set_env(p, "DISALLOW_ARENA_ALLOC", 0); }
+  else P0.ops.push_back(mkh(OP_heap_new, 0));
+  P0.ops.push_back(mkh(OP_heap_new, 1));
   for (int i = 0; i < n; i++) { Op o = mk(OP_malloc, i, req); o.hslot = 0; P0.ops.push_back(o); }
   for (int i = 0; i < 6; i++) { Op o = mk(OP_malloc, n + i, req); o.hslot = 1; P0.ops.push_back(o); }
   spawn_all(p, nt, true, g);
@@ -903,6 +947,7 @@ static void fam_c10_concurrent(G& g, Plan& p) {
   P0.ops.push_back(mk(OP_verify_all));
   P0.ops.push_back(mk(OP_free_all));
   P0.ops.push_back(mkh(OP_expect_empty_heap, -1, -1, 1));
+  if (bound) { p.cfg.madv_free_mode = 1; if (what != 2) P0.ops.push_back(mkh(OP_heap_delete, 1)); P0.ops.push_back(mk(OP_giveback_check, -1, 4)); }      // a free that got lost in the abandoned pages keeps its segment
 }
 
 // ---------------------------------------------------------------------------------
@@ -1820,6 +1865,7 @@ static const FamilyDef FAMILIES[] = {
   {"c07_threadstart", "C07", fam_c07_threadstart, 0, true},
   {"c09_oslist", "C09", fam_c09_oslist, 0, true},
   {"c01_pagequeue", "C01", fam_c01_pagequeue, 1, false},
+  {"c01_pageedge", "C01", fam_c01_pageedge, 1, false},
   {"c11_heapdelete", "C11", fam_c11_heapdelete, 0, true},
   {"c15_arenas", "C15", fam_c15_arenas, 0, true},
   {"c17_misuse", "C17", fam_c17_misuse, 1, true},
